@@ -15,6 +15,7 @@ import (
 // ---------------------------------------------------------------------------------------------
 
 type Env struct {
+	qdepth   int // > 0 inside a quantifier body: terms may mention bound variables and must not be hoisted into definitions
 	havocked map[string]bool // keys havocked by the contract call whose ensures is being assumed
 	tr    *Translator
 	vars  map[string]Val
@@ -236,7 +237,7 @@ func (e *Env) expr(x ast.Expr) Val {
 			return Val{t: sx("sat", base.t, idx), typ: e.typeOf(n)}
 		case *types.Slice:
 			idx := e.intIndex(n.Index)
-			a := &Addr{key: "E:" + shortType(u.Elem()), idxs: []Sx{sx("sl_arr", base.t), it.add(I64, sx("sl_off", base.t), idx)}, typ: u.Elem()}
+			a := &Addr{key: "E:" + shortType(u.Elem()), idxs: []Sx{sx("sl_arr", base.t), it.addNW(sx("sl_off", base.t), idx)}, typ: u.Elem()}
 			return tr.load(e.st, a)
 		case *types.Array:
 			idx := e.intIndex(n.Index)
@@ -328,6 +329,7 @@ func (e *Env) quant(kind string, sort Sx, bound string, typ types.Type, rng func
 	c.fresh++
 	bv := fmt.Sprintf("%s!q%d", sym(bound), c.fresh)
 	ne := e.with(map[string]Val{bound: {t: bv, typ: typ}})
+	ne.qdepth = e.qdepth + 1
 	var bt Sx
 	if len(body.Body.List) == 1 {
 		if r, ok := body.Body.List[0].(*ast.ReturnStmt); ok {
@@ -440,7 +442,7 @@ func (e *Env) inlineSpec(sf *specFunc, n *ast.CallExpr, rt types.Type) Val {
 		for _, nm := range fld.Names {
 			if i < len(n.Args) {
 				v := e.expr(n.Args[i])
-				if strings.ContainsAny(v.t, " (") && v.typ != nil && v.addr == nil && len(v.t) > 40 {
+				if e.qdepth == 0 && strings.ContainsAny(v.t, " (") && v.typ != nil && v.addr == nil && len(v.t) > 40 {
 					v.t = c.define("arg_"+nm.Name, c.sortOf(v.typ), v.t)
 				}
 				vars[nm.Name] = v
@@ -448,7 +450,7 @@ func (e *Env) inlineSpec(sf *specFunc, n *ast.CallExpr, rt types.Type) Val {
 			i++
 		}
 	}
-	ne := &Env{tr: tr, vars: vars, st: e.st, old: e.old, info: sf.Info, depth: e.depth + 1}
+	ne := &Env{tr: tr, vars: vars, st: e.st, old: e.old, info: sf.Info, depth: e.depth + 1, qdepth: e.qdepth, havocked: e.havocked}
 	// quantifier-bound variables of the caller are irrelevant inside (lexical scoping)
 	v := ne.block(sf.Decl.Body.List, rt)
 	v.typ = rt
@@ -487,7 +489,7 @@ func (e *Env) block(stmts []ast.Stmt, rt types.Type) Val {
 		if s.Tok == token.DEFINE && len(s.Lhs) == 1 && len(s.Rhs) == 1 {
 			if id, ok := s.Lhs[0].(*ast.Ident); ok {
 				v := e.expr(s.Rhs[0])
-				if strings.ContainsAny(v.t, " (") && v.typ != nil && v.addr == nil {
+				if e.qdepth == 0 && strings.ContainsAny(v.t, " (") && v.typ != nil && v.addr == nil {
 					v.t = c.define("let_"+id.Name, c.sortOf(v.typ), v.t)
 				}
 				ne := e.with(map[string]Val{id.Name: v})
@@ -531,8 +533,10 @@ func (e *Env) prelude(name string, n *ast.CallExpr, typeArgs []types.Type, rt ty
 		}
 		bound := fl.Type.Params.List[0].Names[0].Name
 		pt := e.typeOf(fl.Type.Params.List[0].Type)
+		// ranges over the objects that existed in the old (entry / pre-call) state: the reading
+		// wanted by frame conditions ("every other pre-existing object is unchanged")
 		return e.quant("forall", "Int", bound, pt, func(v Sx) Sx {
-			return and(sx("<", "0", v), sx("<", v, tr.allocTerm(e.st)))
+			return and(sx("<", "0", v), sx("<", v, tr.allocTerm(e.old)))
 		}, fl)
 	case "forallstr":
 		fl, ok := n.Args[0].(*ast.FuncLit)
@@ -645,6 +649,80 @@ func (e *Env) prelude(name string, n *ast.CallExpr, typeArgs []types.Type, rt ty
 			walk("P:"+shortType(pt), pt)
 		}
 		return Val{t: and(cs...), typ: B}
+	case "allBytes", "allChars", "rangeBytes", "rangeChars":
+		// forall j in the absolute index range [lo, hi) of the slice/string: f(byte at j).
+		// Absolute indices make sub-slices and the byte view of a string line up syntactically.
+		base := arg(0)
+		lo := e.intIndex(n.Args[1])
+		fArg := 2
+		c.fresh++
+		bv := fmt.Sprintf("j!q%d", c.fresh)
+		var cell, rng Sx
+		if name == "allChars" || name == "rangeChars" {
+			hi := sx("slen", base.t)
+			if name == "rangeChars" {
+				hi = e.intIndex(n.Args[2])
+				fArg = 3
+			}
+			cell = sx("select", sx("sbytes", base.t), bv)
+			rng = and(it.le(I64, lo, bv), it.lt(I64, bv, hi))
+		} else {
+			hi := sx("sl_len", base.t)
+			if name == "rangeBytes" {
+				hi = e.intIndex(n.Args[2])
+				fArg = 3
+			}
+			key := "E:uint8"
+			tr.regKey(key, []Sx{"Int", it.isort()}, c.sortOf(types.Typ[types.Uint8]))
+			off := sx("sl_off", base.t)
+			cell = sx("select", sx("select", tr.memGet(e.st, key), sx("sl_arr", base.t)), bv)
+			rng = and(it.le(I64, it.addNW(off, lo), bv), it.lt(I64, bv, it.addNW(off, hi)))
+		}
+		cv := Val{t: cell, typ: types.Typ[types.Uint8]}
+		var body Sx
+		switch fa := n.Args[fArg].(type) {
+		case *ast.FuncLit:
+			ne := e.with(map[string]Val{fa.Type.Params.List[0].Names[0].Name: cv})
+			ne.qdepth = e.qdepth + 1
+			if r, ok := fa.Body.List[0].(*ast.ReturnStmt); ok {
+				body = ne.expr(r.Results[0]).t
+			}
+		case *ast.Ident:
+			if fo, ok := e.info.Uses[fa].(*types.Func); ok && fo.Pkg() != nil {
+				if sf := tr.contracts.SpecDecls[fo.Pkg().Path()+"."+fo.Name()]; sf != nil {
+					qe := *e
+					qe.qdepth++
+					body = qe.inlineSpecVals(sf, []Val{cv}, B).t
+				}
+			}
+		}
+		if body == "" {
+			c.unsupp("spec: %s needs a function literal or a spec function", name)
+			body = "true"
+		}
+		return Val{t: fmt.Sprintf("(forall ((%s %s)) %s)", bv, it.isort(), imp(rng, body)), typ: B}
+	case "ext":
+		// the uninterpreted symbol standing for result #idx of an external deterministic function
+		if len(typeArgs) == 1 && len(n.Args) >= 2 {
+			lit, ok1 := n.Args[0].(*ast.BasicLit)
+			tv, ok2 := e.info.Types[n.Args[1]]
+			if ok1 && ok2 && tv.Value != nil {
+				fname := strings.Trim(lit.Value, `"`)
+				un := fmt.Sprintf("ext_%s_%s", sym(fname), tv.Value.ExactString())
+				var sorts, ts []Sx
+				for _, a := range n.Args[2:] {
+					v := e.expr(a)
+					at := e.typeOf(a)
+					if b, ok := at.(*types.Basic); ok && b.Info()&types.IsUntyped != 0 {
+						at = types.Default(at)
+					}
+					sorts = append(sorts, c.sortOf(at))
+					ts = append(ts, v.t)
+				}
+				c.declFun(un, sorts, c.sortOf(typeArgs[0]))
+				return Val{t: sx(un, ts...), typ: typeArgs[0]}
+			}
+		}
 	case "nothingModified":
 		var cs []Sx
 		keys := e.havocked
@@ -759,6 +837,7 @@ func (f *Frame) loopEnv(header *ssa.BasicBlock, phiVals map[*ssa.Phi]Val, st *St
 			vars[phi.Comment] = v
 		}
 	}
+	// the range expression of a `for range slice` loop is evaluated once before the loop
 	// address-taken locals re-read in the given state
 	for _, b := range doms {
 		for _, in := range b.Instrs {
